@@ -168,9 +168,19 @@ def run_one(dst, env, h, playback=False, timeout=600):
             st = 'error'   # vacuous: nothing panicked and the marker was unreachable
             out += '\n[refusal harness vacuous: no input reached the call]'
         elif 'VERIFICATION:- FAILED' in out:
-            checks = re.findall(r'Failed Checks: ([^\n]*)', out)
-            bad = [c for c in checks if 'VERIF-RETURNED' in c or 'overflow' in c or 'out of bounds' in c or 'divi' in c]
-            st = 'failed' if bad else 'ok'
+            # every failed check with its location.  The harness's own `assert!(false, "VERIF-RETURNED ..")`
+            # is recognised by *where* it is (Kani replaces formatted panic messages by a placeholder, so
+            # the text cannot be relied on): a failed check located in the harness module means the call
+            # under test returned.
+            checks = re.findall(r'Failed Checks: ([^\n]*)\n\s*File: "([^"]*)", line (\d+), in ([^\n]*)', out)
+            bare = re.findall(r'Failed Checks: ([^\n]*)', out)
+            bad = [c for c in checks if 'verif_kani' in c[3] or '/kani/' in c[1] or 'VERIF-RETURNED' in c[0]
+                   or 'overflow' in c[0] or 'out of bounds' in c[0] or 'divi' in c[0]]
+            if len(checks) != len(bare):
+                st = 'error'     # output format not understood: never guess
+                out += '\n[refusal harness: could not locate every failed check]'
+            else:
+                st = 'failed' if bad else 'ok'
         else:
             st = 'error'
     elif 'VERIFICATION:- SUCCESSFUL' in out:
